@@ -171,8 +171,9 @@ def config_for(
             )
             continue
 
-        class_help_entries = {v for k, v in class_docstring_help.items() if k.startswith(name)}
-        init_help_entries = {v for k, v in class_constructor_help.items() if k.startswith(name)}
+        # The docstring entry of a parameter is `name: ...` or `name (type): ...`.
+        class_help_entries = {v for k, v in class_docstring_help.items() if k.split()[:1] == [name]}
+        init_help_entries = {v for k, v in class_constructor_help.items() if k.split()[:1] == [name]}
         help_entries = init_help_entries or class_help_entries
         if help_entries:
             help_str = help_entries.pop()
